@@ -1,5 +1,247 @@
-"""End-to-end part of C12 (limits, filters, temp files) through the server harness; filled in with vsrv."""
+"""End-to-end part of C12: uploads through the real front-ends (limits, filters, temporary files)."""
+import json
+import os
+import random
+import time
+
+from .. import proto, srv
+from .. import standalone as sa
+from . import c01
+
+
+def fnv(b):
+    return c01.fnv(b)
+
+
+def gen_parts(rnd, boundary):
+    parts = []
+    for i in range(rnd.choice([0, 1, 1, 2, 3, 6])):
+        is_file = rnd.random() < 0.5
+        n = rnd.choice([0, 1, 10, 100, 1000, 5000, 70000 if is_file else 2000])
+        kind = rnd.randrange(3)
+        if kind == 0:
+            content = bytes(rnd.getrandbits(8) for _ in range(min(n, 4000))) * (1 if n <= 4000 else n // 4000)
+        elif kind == 1:
+            full = b"\r\n--" + boundary
+            content = b"".join(rnd.choice([full[:rnd.randrange(1, len(full))] + b"X", b"\r\n", b"--", b"-", b"\r", full[:-1], b"text"]) for _ in range(max(1, n // 8)))
+        else:
+            content = b"line\r\n" * (n // 6)
+        content = content.replace(b"\r\n--" + boundary, b"\r\n--" + boundary[:-1] + b"_")
+        if not is_file:
+            content = content[:6000]
+        parts.append({"name": rnd.choice([b"f", b"file", b"field one", b"q\"q", b"n%d" % i]), "filename": (rnd.choice([b"a.txt", b"my file.bin", b"x\"y.dat"]) if is_file else None),
+                      "mime": (rnd.choice([b"text/plain", b"application/octet-stream", b"image/png"]) if is_file else None), "content": content})
+    return parts
+
+
+def q(s):
+    return b'"' + s.replace(b"\\", b"\\\\").replace(b'"', b'\\"') + b'"'
+
+
+def encode_multipart(parts, boundary):
+    out = bytearray()
+    for p in parts:
+        out += b"--" + boundary + b"\r\nContent-Disposition: form-data; name=" + q(p["name"])
+        if p["filename"] is not None:
+            out += b"; filename=" + q(p["filename"])
+        out += b"\r\n"
+        if p["mime"] is not None:
+            out += b"Content-Type: " + p["mime"] + b"\r\n"
+        out += b"\r\n" + p["content"] + b"\r\n"
+    out += b"--" + boundary + b"--\r\n"
+    return bytes(out)
+
+
+def worker(args):
+    basedir, exe, seed, ncases, windex = args
+    rnd = random.Random(seed)
+    res = {"viol": [], "counters": {}, "samples": [], "fail": None}
+
+    def cnt(k, n=1):
+        res["counters"][k] = res["counters"].get(k, 0) + n
+    S = None
+    try:
+        S = srv.Server(basedir, exe, "up%d" % windex, overrides={"security": {"content_length_limit": 8, "multipart_form_data_limit": 512, "file_in_memory_limit": 2000}})
+        sent = {}
+        for ci in range(ncases):
+            if res["viol"]:
+                break
+            boundary = bytes(rnd.choice(b"abcdefXYZ0123456789-_'()+,./:=?") for _ in range(rnd.choice([1, 8, 30, 70]))).rstrip(b" ") or b"B"
+            parts = gen_parts(rnd, boundary)
+            body = encode_multipart(parts, boundary)
+            app = rnd.choice([b"/echo", b"/aecho", b"/upload", b"/rawup"])
+            pn = rnd.choice(["http", "scgi", "fastcgi"])
+            tok = b"U%d-%d" % (windex, ci)
+            query = []
+            kind = rnd.choice(["ok", "ok", "ok", "over-limit", "field-over-limit", "longer-than-declared", "shorter-than-declared", "bad-boundary", "no-final-boundary"])
+            cl_limit = mp_limit = None
+            if app in (b"/upload", b"/rawup"):
+                if rnd.random() < 0.5:
+                    query.append(b"setbuf=%d" % rnd.choice([1, 7, 64, 1000, 65536]))
+                if rnd.random() < 0.3:
+                    query.append(b"mem_limit=%d" % rnd.choice([0, 10, 100000]))
+            send_body = body
+            declared = len(body)
+            expect = "ok"
+            if kind == "over-limit":
+                if app in (b"/upload", b"/rawup"):
+                    mp_limit = max(1, len(body) - rnd.choice([1, 10]))
+                    query.append(b"mp_limit=%d" % mp_limit)
+                    expect = "413"
+                else:
+                    big = [{"name": b"big", "filename": b"big.bin", "mime": b"application/octet-stream", "content": b"z" * (530 * 1024)}]
+                    send_body = body = encode_multipart(big, boundary)
+                    parts = big
+                    declared = len(body)
+                    expect = "413"
+            elif kind == "field-over-limit" and app != b"/rawup":
+                fld = [{"name": b"huge", "filename": None, "mime": None, "content": b"y" * (9 * 1024)}]
+                send_body = body = encode_multipart(fld, boundary)
+                parts = fld
+                declared = len(body)
+                expect = "413"
+            elif kind == "longer-than-declared" and len(body) > 2:
+                declared = len(body) - rnd.choice([1, 2, len(body) // 2])
+                expect = "400" if app != b"/rawup" else "ok-raw-short"
+            elif kind == "shorter-than-declared":
+                declared = len(body) + rnd.choice([1, 10, 1000])
+                expect = "incomplete"
+            elif kind == "bad-boundary" and parts and app != b"/rawup":
+                send_body = body.replace(b"--" + boundary + b"\r\n", b"--" + boundary + b"X\r\n", 1)
+                expect = "400"
+            elif kind == "no-final-boundary" and app != b"/rawup":
+                send_body = body[:-len(boundary) - 6] + b"\r\n"
+                declared = len(send_body)
+                expect = "400"
+            ctype = b"multipart/form-data; boundary=" + (q(boundary) if rnd.random() < 0.5 or not boundary.replace(b"-", b"").replace(b"_", b"").isalnum() else boundary)
+            r = proto.Req(method=b"POST", script=app, path_info=b"/up", query=b"&".join(query + [b"tok=" + tok]), body=send_body, content_type=ctype, token=tok)
+            if pn == "http":
+                data = proto.http_encode(r, version=b"1.0").replace(b"Content-Length: %d" % len(send_body), b"Content-Length: %d" % declared, 1)
+            elif pn == "scgi":
+                data = proto.scgi_encode(r).replace(b"CONTENT_LENGTH\0%d\0" % len(send_body), b"CONTENT_LENGTH\0%d\0" % declared, 1)
+                # the netstring length changes with the digits of CONTENT_LENGTH: re-encode properly
+                env = [(k, (b"%d" % declared if k == b"CONTENT_LENGTH" else v)) for k, v in proto.cgi_env(r)]
+                blob = b"".join(k + b"\0" + v + b"\0" for k, v in env)
+                data = str(len(blob)).encode() + b":" + blob + b"," + send_body
+            else:
+                env = [(k, (b"%d" % declared if k == b"CONTENT_LENGTH" else v)) for k, v in proto.cgi_env(r) if k != b"SCGI"]
+                import struct
+                data = proto.fcgi_record(proto.FCGI_BEGIN, 1, struct.pack(">HB5x", 1, 0)) + proto.fcgi_stream(proto.FCGI_PARAMS, 1, proto.fcgi_pairs(env)) + proto.fcgi_stream(proto.FCGI_STDIN, 1, send_body, rnd)
+            sched = None
+            if rnd.random() < 0.5:
+                sched = [rnd.choice([1, 2, 3, 17, 100, 1000]) for _ in range(rnd.choice([10, 100, 600]))]
+            rp = {"proto": pn, "app": app.decode(), "kind": kind, "expect": expect, "boundary": boundary.decode("latin-1"), "body_len": len(send_body), "declared": declared, "parts": [(p["name"].decode("latin-1"), len(p["content"])) for p in parts][:8], "sched": (sched or [])[:30]}
+            sent[tok.decode()] = (kind, expect, app.decode())
+            try:
+                c = srv.Conn(S, pn, r=sched, timeout=15)
+                try:
+                    c.send(data)
+                    if expect == "incomplete":
+                        c.half_close()
+                    raw, closed = c.recv_all(15)
+                finally:
+                    c.close()
+            except OSError:
+                cnt("client_io_errors")
+                if not S.alive():
+                    break
+                continue
+            cnt("uploads")
+            cnt("uploads_" + kind)
+            d = proto.http_parse_response(raw) if pn == "http" else (proto.cgi_parse_response(raw) if pn == "scgi" else proto.fcgi_parse_response(raw)["cgi"])
+            st = d["status"]
+            if not S.alive():
+                break
+            if expect == "ok":
+                if st != 200:
+                    res["viol"].append({"key": "c12:well-formed-upload-refused:" + pn, "detail": "status %r" % st, "replay": rp})
+                    break
+                try:
+                    echo = json.loads(d["body"].decode("latin-1"))
+                except ValueError:
+                    res["viol"].append({"key": "c12:well-formed-upload-refused:" + pn, "detail": "no echo document", "replay": rp})
+                    break
+                if app != b"/rawup":
+                    files = [(bytes.fromhex(f["name"]), bytes.fromhex(f["filename"]), bytes.fromhex(f["mime"]).lower(), f["len"], int(f["hash"])) for f in echo["files"]]
+                    wantf = [(p["name"], p["filename"], p["mime"].lower(), len(p["content"]), fnv(p["content"])) for p in parts if p["mime"] is not None]
+                    post = sorted((bytes.fromhex(a), bytes.fromhex(b)) for a, b in echo["post"])
+                    wantp = sorted((p["name"], p["content"]) for p in parts if p["mime"] is None)
+                    if files != wantf:
+                        res["viol"].append({"key": "c12:uploaded-files-differ:" + pn, "detail": "got %r want %r" % ([f[:4] for f in files][:4], [f[:4] for f in wantf][:4]), "replay": rp})
+                        break
+                    if post != wantp:
+                        res["viol"].append({"key": "c12:form-fields-differ:" + pn, "detail": "%d vs %d fields" % (len(post), len(wantp)), "replay": rp})
+                        break
+                    cnt("uploads_compared")
+                    cnt("parts_compared", len(parts))
+                xf = dict((a.lower(), b) for a, b in d["headers"]).get(b"x-filter", b"").decode()
+                if app == b"/rawup" and send_body:
+                    kv = dict(x.split("=") for x in xf.split())
+                    if int(kv["raw_bytes"]) != len(send_body) or int(kv["raw_hash"]) != fnv(send_body) or kv["eoc"] != "1" or kv["errors"] != "0":
+                        res["viol"].append({"key": "c12:raw-filter-did-not-see-every-byte-once:" + pn, "detail": xf + " body_len=%d" % len(send_body), "replay": rp})
+                        break
+                    cnt("raw_filter_checked")
+                if app == b"/upload" and send_body:
+                    kv = dict(x.split("=") for x in xf.split())
+                    if int(kv["new_files"]) != len(parts) or int(kv["ready"]) != len(parts) or kv["eoc"] != "1" or kv["errors"] != "0":
+                        res["viol"].append({"key": "c12:multipart-filter-callbacks-wrong:" + pn, "detail": xf + " parts=%d" % len(parts), "replay": rp})
+                        break
+                    cnt("multipart_filter_checked")
+            elif expect in ("400", "413"):
+                if st == 200:
+                    res["viol"].append({"key": "c12:%s-upload-delivered:%s" % (kind, pn), "detail": "status 200 (app %s)" % app.decode(), "replay": rp})
+                    break
+                if st is not None and st != int(expect) and not (expect == "400" and st == 413):
+                    res["viol"].append({"key": "c12:%s-upload-answered-with-%s:%s" % (kind, st, pn), "detail": "expected %s" % expect, "replay": rp})
+                    break
+                cnt("refusals_checked")
+            elif expect == "incomplete":
+                if st == 200:
+                    res["viol"].append({"key": "c12:incomplete-upload-delivered:" + pn, "detail": "app %s" % app.decode(), "replay": rp})
+                    break
+                cnt("incomplete_checked")
+            # temporary files disappear with the request
+            deadline = time.time() + 3
+            while os.listdir(S.uploads) and time.time() < deadline:
+                time.sleep(0.01)
+            left = os.listdir(S.uploads)
+            if left:
+                res["viol"].append({"key": "c12:temporary-upload-file-left-behind", "detail": repr(left[:3]), "replay": rp})
+                break
+            if ci < 2:
+                res["samples"].append(rp)
+        S.stop()
+        key, detail = S.death_report()
+        if key:
+            res["viol"].append({"key": key, "detail": detail, "replay": None})
+        # refused / incomplete uploads must not reach the application's completed stage; on_error at most once
+        mains = {}
+        errs = {}
+        for e in S.events():
+            t = e.get("token")
+            if e.get("ev") == "main" and t:
+                mains[t] = mains.get(t, 0) + 1
+            if e.get("ev") == "on_error" and t:
+                errs[t] = errs.get(t, 0) + 1
+        for t, (kind, expect, app) in sent.items():
+            if expect in ("400", "413", "incomplete") and mains.get(t, 0) > 0:
+                res["viol"].append({"key": "c12:handler-called-for-refused-upload", "detail": "%s %s %s" % (t, kind, app), "replay": None})
+                break
+            if errs.get(t, 0) > 1:
+                res["viol"].append({"key": "c12:upload-error-notified-more-than-once", "detail": "%s %s" % (t, kind), "replay": None})
+                break
+        cnt("on_error_notifications", sum(errs.values()))
+    except Exception as e:  # harness failure
+        import traceback
+        res["fail"] = "%r\n%s\n%s" % (e, traceback.format_exc()[-1500:], S.stderr()[-800:] if S else "")
+        if S:
+            S.stop()
+    return res
 
 
 def run(ck):
-    return
+    exe = ck.build("asan", ["vsrv"])["vsrv"]
+    thorough = ck.tier == "thorough"
+    n = int((6000 if thorough else 120) * ck.scale)
+    args = [(ck.rundir, exe, sa.subseed(ck, 500 + i), n, i) for i in range(16)]
+    c01.run_workers(ck, worker, args)
